@@ -222,11 +222,14 @@ typedef struct
     Bit32u writebuf_last;
     Bit64u writebuf_lasttime;
     opn2_writebuf writebuf[OPN_WRITEBUF_SIZE];
+
+    /* YM2612 / YM3438 behaviour of this chip (ym3438_mode_*) */
+    Bit32u chip_type;
 } ym3438_t;
 
 /* EXTRA, original was "void OPN2_Reset(ym3438_t *chip)" */
 void OPN2_Reset(ym3438_t *chip, Bit32u rate, Bit32u clock);
-void OPN2_SetChipType(Bit32u type);
+void OPN2_SetChipType(ym3438_t *chip, Bit32u type);
 void OPN2_Clock(ym3438_t *chip, Bit16s *buffer);
 void OPN2_Write(ym3438_t *chip, Bit32u port, Bit8u data);
 void OPN2_SetTestPin(ym3438_t *chip, Bit32u value);
